@@ -5,6 +5,7 @@ package gen
 
 import (
 	"fmt"
+	"sort"
 	"strconv"
 	"strings"
 
@@ -1359,6 +1360,7 @@ func specialize(r *rng, p *plan.Plan, focus, arm string) {
 			}
 			for i := range rp.Conns {
 				rp.Conns[i].Coalesce = true
+				rp.Conns[i].Straddle = false // a burst is sent whole
 			}
 			t0 := map[int]int64{}
 			for i := range rp.Ops {
@@ -1372,6 +1374,49 @@ func specialize(r *rng, p *plan.Plan, focus, arm string) {
 			}
 			for _, t := range rp.Tokens {
 				t.Acts = []plan.UpAction{{Kind: "reply", DelayUs: 2_000_000 + r.i64(0, 500_000)}}
+			}
+			// second phase: long after the burst has been answered the same
+			// connection asks again, never more at once than the limit allows:
+			// none of these may be refused (the limit counts queries in flight,
+			// not queries ever refused)
+			if r.p(0.7) {
+				nconn := map[int]int{}
+				used := map[[2]int]bool{}
+				for _, o := range rp.Ops {
+					nconn[o.Conn]++
+					used[[2]int{o.Conn, int(o.ID)}] = true
+				}
+				conns := make([]int, 0, len(t0))
+				for c := range t0 {
+					conns = append(conns, c)
+				}
+				sort.Ints(conns)
+				for _, c := range conns {
+					lim := int(rp.Servers[rp.Conns[c].Server].MaxConcurrent)
+					if nconn[c] <= lim {
+						continue
+					}
+					at := t0[c] + 4_500_000
+					for round := r.rng(1, 3); round > 0; round-- {
+						n2 := r.rng(1, lim)
+						for j := 0; j < n2; j++ {
+							idx := len(rp.Ops)
+							tok := fmt.Sprintf("t%d", idx)
+							id := uint16(0x4000 + idx)
+							for used[[2]int{c, int(id)}] {
+								id += 0x1001
+							}
+							used[[2]int{c, int(id)}] = true
+							rp.Ops = append(rp.Ops, plan.ClientOp{Idx: idx, Conn: c, AtUs: at, ID: id, Token: tok, NQ: 1, Class: 1, Type: 1, Bits: refdns.BitRD,
+								Labels: append([][]byte{[]byte(tok)}, labelsOf("example.com")...)})
+							rp.Tokens[tok] = &plan.TokenSpec{Ans: plan.AnswerSpec{NAn: 1, TTLs: []uint32{60}, Shape: "plain"}, Acts: []plan.UpAction{{Kind: "reply", DelayUs: r.i64(300, 300_000)}}}
+						}
+						at += 1_500_000
+					}
+					if at+12_000_000 > rp.HorizonUs {
+						rp.HorizonUs = at + 12_000_000
+					}
+				}
 			}
 			rp.Rules = []plan.RuleSpec{{Forward: rp.Upstreams[0].Tag}}
 			rp.DomainSets = nil
